@@ -233,10 +233,14 @@ breaker('C03', 'store-objects-fresh-serial', 'C03.R5', CONNPY,
 breaker('C03', 'store-objects-modified-after-store', 'C03.R6', CONNPY,
         'Connection._store_objects_of',
         '''            else:
+                new = False
                 self._modified.append(oid)
 
             p = writer.serialize(obj)''',
-        '''            p = writer.serialize(obj)''')
+        '''            else:
+                new = False
+
+            p = writer.serialize(obj)''')
 breaker('C03', 'store-objects-drop-dependency-in-savepoint', 'C03.R7', CONNPY,
         'Connection._store_objects_of',
         '''            if self._savepoint_storage is None:
@@ -2351,3 +2355,69 @@ breaker('C02', 'abort-flushes-pool-before-truncate', 'C05.R2', FSPY,
             self._files.flush()''',
         '''            self._files.flush()
             self._file.truncate(self._pos)''')
+
+# ---- F52 .. F56 -------------------------------------------------------------
+breaker('C12', 'store-objects-pops-unconditionally', 'C12.R11', CONNPY,
+        'Connection._store_objects_of',
+        '''                    if not new:
+                        self._modified.pop()  # not modified''',
+        '''                    self._modified.pop()  # not modified''')
+twin('C12', 'store-objects-pop-flag-renamed', CONNPY,
+     'Connection._store_objects_of',
+     '''                    if not new:
+                        self._modified.pop()  # not modified''',
+     '''                    if new:
+                        pass
+                    else:
+                        self._modified.pop()  # not modified''')
+
+breaker('C09', 'time-travel-open-takes-index', 'C09.R10', FSPY,
+        'FileStorage.__init__',
+        '''        if r is not None and r[2] >= stop:''',
+        '''        if r is not None and r[2] is None:''')
+
+breaker('C06', 'failed-undo-keeps-buffer', 'C06.R10', FSPY, 'FileStorage.undo',
+        '''                self._tfile.seek(buffered)
+                raise''',
+        '''                raise''')
+twin('C06', 'failed-undo-rewind-in-finally', FSPY, 'FileStorage.undo',
+     '''            try:
+                tindex = self._txn_undo_write(tpos)
+            except BaseException:
+                # A failed undo changes nothing: forget the records it
+                # has written to the transaction buffer so far.
+                self._tfile.seek(buffered)
+                raise''',
+     '''            ok = False
+            try:
+                tindex = self._txn_undo_write(tpos)
+                ok = True
+            finally:
+                if not ok:
+                    self._tfile.seek(buffered)''')
+
+breaker('C07', 'pack-index-counts-undone-records', 'C07.R10', PACKPY,
+        'GC.buildPackIndex',
+        '''                if th.status == 'u':''',
+        '''                if th.status == 'c':''')
+breaker('C07', 'copyone-indexes-undone-records', 'C07.R10', PACKPY,
+        'FileStoragePacker.copyOne',
+        '''        if th.status != 'u':
+            # (the records of an undone transaction are not current)
+            self.index.update(self.tindex)''',
+        '''        self.index.update(self.tindex)''')
+
+breaker('C13', 'wrapper-undo-without-byte-check', 'C13.R15', BLOBPY,
+        'BlobStorage.undo',
+        '''                if self._blob_changed_since(oid, tid):''',
+        '''                if False:''')
+breaker('C13', 'wrapper-changed-since-end-before-compare', 'C13.R14', BLOBPY,
+        'BlobStorage._blob_changed_since',
+        '''                        if d1 != f2.read(1 << 16):
+                            return True
+                        if not d1:
+                            return False''',
+        '''                        if not d1:
+                            return False
+                        if d1 != f2.read(1 << 16):
+                            return True''')
